@@ -95,6 +95,9 @@ Update(i, x, w, c2, off2) ==
         /\ obj' = [obj EXCEPT ![i] = n]
 \* "a count of zero is a no-op"
 UpdateZero(i) == i \in Live /\ UNCHANGED obj
+\* "a negative count will throw an exception" (signed / floating weight types; also NaN and infinite weights): the call is
+\* refused and nothing was offered, so no observable changes
+UpdateRefused(i) == i \in Live /\ UNCHANGED obj
 \* i.merge(j): everything offered to j is now also offered to i; j is not changed
 Merge(i, j, c2, off2) ==
   /\ i \in Live /\ j \in Live /\ i # j
@@ -111,6 +114,7 @@ Next == \E i \in Ids :
           \/ \E x \in Items, w \in Weights, c2 \in PartialFns(Items, 1..MaxTotal), off2 \in 0..MaxTotal :
                 Update(i, x, w, c2, off2)
           \/ UpdateZero(i)
+          \/ UpdateRefused(i)
           \/ \E j \in Ids, c2 \in PartialFns(Items, 1..MaxTotal), off2 \in 0..MaxTotal : Merge(i, j, c2, off2)
           \/ \E j \in Ids : i # j /\ j \notin Live /\ Copy(i, j)
           \/ Destroy(i)
